@@ -70,14 +70,15 @@ def replayProgs : List (List Replay.Call) := [[.next (.int 1)], [.subscribe 0]]
 still empty inner subject, then the subscriber registers.  Item 1 is in `items` but never reaches the subscriber. -/
 def replayLost : List Replay.Label :=
   [(0, .call), (1, .call), (1, .isSub1), (1, .setTd), (1, .hist), (0, .push), (0, .snap), (0, .ret),
-   (1, .serial), (1, .setTdF), (1, .insert), (1, .rdErr), (1, .rdCompl), (1, .hdone), (1, .setSbsc)]
+   (1, .serial), (1, .setTdF), (1, .insert), (1, .rdErr), (1, .rdCompl), (1, .hdone), (1, .setSbsc),
+   (1, .isSubEnd)]
 
 /-- DUPLICATED ITEM: the producer pushes, the subscriber clones the history (containing 1) and registers, the
 producer broadcasts 1 to the registered forwarder, then the subscriber replays 1 again. -/
 def replayDup : List Replay.Label :=
   [(0, .call), (0, .push), (1, .call), (1, .isSub1), (1, .setTd), (1, .hist), (1, .serial), (1, .setTdF),
    (1, .insert), (0, .snap), (0, .fetch), (0, .ofetch), (0, .deliver), (0, .ret), (1, .rdErr), (1, .rdCompl),
-   (1, .hfetch), (1, .hdeliver), (1, .hdone), (1, .setSbsc)]
+   (1, .hfetch), (1, .hdeliver), (1, .hdone), (1, .setSbsc), (1, .isSubEnd)]
 
 /-- what the schedules are judged on: all threads finished, observer 0 subscribed and never unsubscribed,
 contents of `items`, items received by observer 0 -/
